@@ -19,6 +19,7 @@ import (
 	"os"
 	"path/filepath"
 	"sort"
+	"strconv"
 	"strings"
 	"time"
 
@@ -144,6 +145,10 @@ type Case struct {
 	Interleave string `json:"il"`
 	Link       string `json:"link"` // "eth" | "raw"
 	Cuts       []int  `json:"cuts"` // packet positions at which a new capture file starts
+	// Assign (instead of Cuts): "ovl:<k>" - two sensors with overlapping captures: of the first k
+	// packets the even ones go to file 0 and the odd ones to file 1, the rest to file 2;
+	// "ovlp:<k>" the same in pairs (0,0,1,1,...)
+	Assign string `json:"assign,omitempty"`
 }
 
 func (c Case) Key() string {
@@ -151,7 +156,11 @@ func (c Case) Key() string {
 	for i, d := range c.Devs {
 		ds[i] = d.String()
 	}
-	return fmt.Sprintf("%s devs=[%s] il=%s link=%s cuts=%v", c.Set, strings.Join(ds, " "), c.Interleave, c.Link, c.Cuts)
+	k := fmt.Sprintf("%s devs=[%s] il=%s link=%s cuts=%v", c.Set, strings.Join(ds, " "), c.Interleave, c.Link, c.Cuts)
+	if c.Assign != "" {
+		k += " assign=" + c.Assign
+	}
+	return k
 }
 
 type PktRef struct {
@@ -679,6 +688,32 @@ func Build(c Case) (*Capture, error) {
 		p.File, p.Index = f, idx
 		idx++
 	}
+	if c.Assign != "" {
+		if len(cuts) != 0 {
+			return nil, fmt.Errorf("assign and cuts exclude each other")
+		}
+		kind, ks, _ := strings.Cut(c.Assign, ":")
+		k, err := strconv.Atoi(ks)
+		if err != nil || k < 2 || k >= len(all) || (kind != "ovl" && kind != "ovlp") {
+			return nil, fmt.Errorf("bad assign %q for %d packets", c.Assign, len(all))
+		}
+		cp.Files = []string{"f0.pcap", "f1.pcap", "f2.pcap"}
+		var next [3]int
+		for i, p := range all {
+			f := 2
+			if i < k {
+				f = i % 2
+				if kind == "ovlp" {
+					f = (i / 2) % 2
+				}
+			}
+			p.File, p.Index = f, next[f]
+			next[f]++
+		}
+		if next[0] == 0 || next[1] == 0 || next[2] == 0 {
+			return nil, fmt.Errorf("assign %q leaves a file empty", c.Assign)
+		}
+	}
 	// ground truth
 	crossSwap := map[int]bool{}
 	{
@@ -902,42 +937,44 @@ func (c *Capture) WriteFiles(dir string) error {
 	if err != nil {
 		return err
 	}
-	var f *os.File
-	var w *pcapgo.Writer
-	cur := -1
-	closeCur := func() error {
-		if f != nil {
-			return f.Close()
+	files := map[int]*os.File{}
+	writers := map[int]*pcapgo.Writer{}
+	closeAll := func() error {
+		var first error
+		for _, f := range files {
+			if err := f.Close(); err != nil && first == nil {
+				first = err
+			}
 		}
-		return nil
+		return first
 	}
 	for i, p := range c.Packets {
-		if p.File != cur {
-			if err := closeCur(); err != nil {
-				return err
-			}
-			cur = p.File
-			f, err = os.Create(filepath.Join(dir, c.Files[cur]))
+		w := writers[p.File]
+		if w == nil {
+			f, err := os.Create(filepath.Join(dir, c.Files[p.File]))
 			if err != nil {
+				closeAll()
 				return err
 			}
+			files[p.File] = f
 			w = pcapgo.NewWriter(f)
+			writers[p.File] = w
 			if err := w.WriteFileHeader(65535, lt); err != nil {
-				f.Close()
+				closeAll()
 				return err
 			}
 		}
 		data, err := c.serialize(p, lt, uint16(i+1))
 		if err != nil {
-			f.Close()
+			closeAll()
 			return err
 		}
 		if err := w.WritePacket(gopacket.CaptureInfo{Timestamp: p.TS, CaptureLength: len(data), Length: len(data)}, data); err != nil {
-			f.Close()
+			closeAll()
 			return err
 		}
 	}
-	return closeCur()
+	return closeAll()
 }
 
 // Describe lists the packets of the capture (for messages and samples).
